@@ -37,10 +37,12 @@ import unittest
 from .recorders import next_seq
 
 BASE_KINDS = ("kbd", "exit", "kbdsub", "exitsub", "basedirect")
-FAILING = {"fail", "error", "failsub", "mismatch", "eqexc", "sameobj", "emptymulti", "xfail_err"} | set(BASE_KINDS)
+FAILING = {"fail", "error", "failsub", "mismatch", "eqexc", "sameobj", "emptymulti", "xfail_err", "unhashable",
+           "eqany"} | set(BASE_KINDS)
 
 KIND_OUTCOME = {
     "eqexc": "addError", "sameobj": "addError", "emptymulti": "addError", "xfail_err": "addError",
+    "unhashable": "addError", "eqany": "addError",
     "skip_empty": "addSkip", "skip2": "addSkip",
     "fail": "addFailure", "failsub": "addFailure", "mismatch": "addFailure",
     "error": "addError", "skip": "addSkip", "skipsub": "addSkip",
@@ -108,6 +110,25 @@ class EqExc(Exception):
 
     def __eq__(self, other):
         return type(other) is EqExc and self.args == other.args
+
+    def __hash__(self):
+        return hash(self.args)
+
+
+class UnhashableError(Exception):
+    """Defines __eq__ and therefore (like any dataclass exception) has no __hash__."""
+
+    def __eq__(self, other):
+        return type(other) is UnhashableError and self.args == other.args
+
+    __hash__ = None
+
+
+class EqAnyError(Exception):
+    """Compares equal to ANY exception carrying the same arguments (value-style equality)."""
+
+    def __eq__(self, other):
+        return isinstance(other, BaseException) and self.args == other.args
 
     def __hash__(self):
         return hash(self.args)
@@ -274,6 +295,10 @@ def _do_raise(env, case, action, constituent=False):
         raise note(MyExit(tok))
     if kind == "skipsub":
         raise note(MySkip(tok))
+    if kind == "unhashable":
+        raise note(UnhashableError(tok))
+    if kind == "eqany":
+        raise note(EqAnyError(tok))      # tok is shared with an earlier skip on purpose
     if kind == "eqexc":
         raise note(EqExc(tok))          # tok is shared between several raises on purpose
     if kind == "sameobj":
